@@ -412,9 +412,18 @@ func (m mathIF) Call(args ...interface{}) (v interface{}, err error) {
 		err = fmt.Errorf("cannot pass %T to %s as second arg, must be float64", args[1], m.name)
 		return
 	}
+	// The order comes from the data and math.Jn / math.Yn take time proportional to it:
+	// an absurd order must be an error, not a node that computes (practically) for ever.
+	if a0 > maxMathIFOrder || a0 < -maxMathIFOrder {
+		err = fmt.Errorf("order %d passed to %s is out of range, must be within +/-%d", a0, m.name, maxMathIFOrder)
+		return
+	}
 	v = m.f(int(a0), a1)
 	return
 }
+
+// maxMathIFOrder bounds the integer order accepted by jn and yn.
+const maxMathIFOrder = 1 << 20
 
 var mathIFFuncSignature = map[Domain]ast.ValueType{}
 
